@@ -1,2 +1,415 @@
-From EO Require Import Prelude.Py Model.Spec.
-Theorem C20_placeholder : True. Proof. exact I. Qed.
+(* Property C20: after importing the top-level package in any order of first import, every documented module and
+   subpackage is reachable by attribute access along its dotted path and is the very module the import system resolves
+   for that name; every public name is one and the same object at top level and in its home subpackage.
+   Theorems about the operational model of the import system (Model/PyImport.v), universally quantified over import
+   programs, worlds (sys.modules) and fuel, and checks by computation on a miniature of the eolib package. *)
+From EO Require Import Prelude.Py Model.Spec Model.PyImport Proofs.PyImport.
+From Coq Require Import String.
+Set Default Timeout 60.
+Open Scope string_scope.
+Open Scope list_scope.
+
+(* ------------------------------------------------------------------------------------------ *)
+(* 1. basic facts about the import system                                                       *)
+(* ------------------------------------------------------------------------------------------ *)
+Theorem C20_fuel_monotone : forall fuel P w p w',
+  import_module fuel P w p = Some w' -> forall fuel', (fuel <= fuel')%nat -> import_module fuel' P w p = Some w'.
+Proof. intros fuel P w p w' H fuel' Hle. eapply import_fuel_mono; eauto. Qed.
+
+Theorem C20_exec_fuel_monotone : forall fuel P w cur body w',
+  exec_stmts fuel P w cur body = Some w' -> forall fuel', (fuel <= fuel')%nat -> exec_stmts fuel' P w cur body = Some w'.
+Proof. intros fuel P w cur body w' H fuel' Hle. eapply exec_fuel_mono; eauto. Qed.
+
+Theorem C20_fresh_run_fuel_monotone : forall fuel P first w,
+  fresh_run fuel P first = Some w -> forall fuel', (fuel <= fuel')%nat -> fresh_run fuel' P first = Some w.
+Proof.
+  unfold fresh_run. intros fuel P first w H fuel' Hle. apply obind_some in H as (w1 & H1 & H2).
+  rewrite (import_fuel_mono _ _ _ _ _ _ H1 Hle). simpl. eapply import_fuel_mono; eauto.
+Qed.
+
+(* a module already in sys.modules (complete or partially initialised) is not imported again *)
+Theorem C20_import_idempotent : forall fuel P w p m, wfind w p = Some m -> import_module (S fuel) P w p = Some w.
+Proof. intros fuel P w p m H. rewrite import_module_S. unfold import_step. rewrite H. reflexivity. Qed.
+
+Theorem C20_import_registers : forall fuel P w p w',
+  import_module fuel P w p = Some w' -> is_internal P p = true -> exists m, wfind w' p = Some m.
+Proof. intros. eapply import_registers; eauto. Qed.
+
+(* nothing is ever removed from sys.modules, and a completed module stays completed *)
+Theorem C20_modules_persist : forall fuel P w p w' q m,
+  import_module fuel P w p = Some w' -> wfind w q = Some m ->
+  exists m', wfind w' q = Some m' /\ (m_done m = true -> m_done m' = true).
+Proof. intros fuel P w p w' q m H Hq. exact (import_wle _ _ _ _ _ H _ _ Hq). Qed.
+
+Theorem C20_modules_persist_exec : forall fuel P w cur body w' q m,
+  exec_stmts fuel P w cur body = Some w' -> wfind w q = Some m ->
+  exists m', wfind w' q = Some m' /\ (m_done m = true -> m_done m' = true).
+Proof. intros fuel P w cur body w' q m H Hq. exact (exec_wle _ _ _ _ _ _ H _ _ Hq). Qed.
+
+(* the frame property: an import never touches a module already in sys.modules, except for appending
+   `leaf -> that module's own submodule with that leaf` to its namespace (a child that completed).
+   __all__ and the completion flag are unchanged. *)
+Theorem C20_frame : forall fuel P w p w' cur m,
+  import_module fuel P w p = Some w' -> wfind w cur = Some m ->
+  exists l, wfind w' cur = Some (mkM (m_ns m ++ l) (m_all m) (m_done m)) /\
+            Forall (fun kv => snd kv = OMod (cur ++ "." ++ fst kv)) l.
+Proof. intros fuel P w p w' cur m H Hm. exact (import_frame _ _ _ _ _ cur H _ Hm). Qed.
+
+(* the same for the body of another module *)
+Theorem C20_frame_exec : forall fuel P w c body w' cur m,
+  exec_stmts fuel P w c body = Some w' -> cur <> c -> wfind w cur = Some m ->
+  exists l, wfind w' cur = Some (mkM (m_ns m ++ l) (m_all m) (m_done m)) /\
+            Forall (fun kv => snd kv = OMod (cur ++ "." ++ fst kv)) l.
+Proof. intros fuel P w c body w' cur m H Hne Hm. exact (exec_frame _ _ _ _ _ _ cur H Hne _ Hm). Qed.
+
+(* ------------------------------------------------------------------------------------------ *)
+(* 2. the re-binding loop.  Stronger than asked: no NoDup, no is_internal side condition -         *)
+(*    duplicates re-bind the same value, and a submodule imported later in the loop can only      *)
+(*    append `leaf -> cur.leaf` to cur's namespace (C20_frame), which is the same value again.    *)
+(* ------------------------------------------------------------------------------------------ *)
+Theorem C20_rebind_binds : forall fuel P w cur names w',
+  exec_stmts fuel P w cur [SRebind names] = Some w' ->
+  (exists m0, wfind w cur = Some m0) ->
+  forall n, In n names ->
+  exists m, wfind w' cur = Some m /\ ns_lookup (m_ns m) n = Some (OMod (cur ++ "." ++ n)).
+Proof.
+  intros fuel P w cur names w' H [m0 Hm0] n Hn.
+  apply exec_stmts_single in H as (f & -> & H). unfold exec_stmt in H.
+  destruct (rebind_loop _ _ _ _ _ _ _ H Hm0) as (l & Hl & F & Hin).
+  exists (mext m0 l). split; [exact Hl|]. simpl.
+  apply lookup_child_ext_in; [exact F | apply Hin; exact Hn].
+Qed.
+
+(* ... and __all__ / completion flag of the package are untouched, the old namespace is a prefix *)
+Theorem C20_rebind_only_appends : forall fuel P w cur names w' m0,
+  exec_stmts fuel P w cur [SRebind names] = Some w' -> wfind w cur = Some m0 ->
+  exists l, wfind w' cur = Some (mkM (m_ns m0 ++ l) (m_all m0) (m_done m0)) /\
+            Forall (fun kv => snd kv = OMod (cur ++ "." ++ fst kv)) l /\ incl names (map fst l).
+Proof.
+  intros fuel P w cur names w' m0 H Hm0.
+  apply exec_stmts_single in H as (f & -> & H). unfold exec_stmt in H.
+  exact (rebind_loop _ _ _ _ _ _ _ H Hm0).
+Qed.
+
+Theorem C20_rebind_last_wins : forall fuel P w cur pre names w',
+  exec_stmts fuel P w cur (pre ++ [SRebind names]) = Some w' ->
+  (exists m0, wfind w cur = Some m0) ->
+  forall n, In n names ->
+  exists m, wfind w' cur = Some m /\ ns_lookup (m_ns m) n = Some (OMod (cur ++ "." ++ n)).
+Proof.
+  intros fuel P w cur pre names w' H [m0 Hm0] n Hn.
+  apply exec_stmts_app in H as (w1 & H1 & H2).
+  destruct (exec_wle _ _ _ _ _ _ H1 _ _ Hm0) as (m1 & Hm1 & _).
+  eapply C20_rebind_binds; eauto.
+Qed.
+
+(* ------------------------------------------------------------------------------------------ *)
+(* 3. `from t import *` copies exactly the public names t has at that moment (t may be cur)       *)
+(* ------------------------------------------------------------------------------------------ *)
+Theorem C20_star_copies : forall fuel P w cur t w',
+  exec_stmts fuel P w cur [SStar t] = Some w' ->
+  (exists m0, wfind w cur = Some m0) ->
+  exists w1, import_module (pred fuel) P w t = Some w1 /\
+    (wfind w1 t = None -> w' = w1) /\
+    forall mt, wfind w1 t = Some mt ->
+      exists m1 m', wfind w1 cur = Some m1 /\ wfind w' cur = Some m' /\
+        m_all m' = m_all m1 /\ m_done m' = m_done m1 /\
+        (forall k v, In k (public_names mt) -> ns_lookup (m_ns mt) k = Some v -> ns_lookup (m_ns m') k = Some v) /\
+        (forall k, ~ In k (public_names mt) -> ns_lookup (m_ns m') k = ns_lookup (m_ns m1) k) /\
+        (forall q, q <> cur -> wfind w' q = wfind w1 q).
+Proof.
+  intros fuel P w cur t w' H [m0 Hm0].
+  apply exec_stmts_single in H as (f & -> & H). unfold exec_stmt in H.
+  apply obind_some in H as (w1 & H1 & H). exists w1. split; [exact H1|]. split.
+  - intros E. rewrite E in H. inversion H; reflexivity.
+  - intros mt Hmt. rewrite Hmt in H. inversion H; subst w'; clear H.
+    destruct (import_wle _ _ _ _ _ H1 _ _ Hm0) as (m1 & Hm1 & _).
+    destruct (star_fold_spec cur mt w1 m1 Hm1) as (m' & Hm' & Ha & Hd & Hc & Hn & Ho).
+    exists m1, m'. repeat split; auto.
+Qed.
+
+(* The statement first proposed for this property claimed `exists w1 mt, import_module (pred fuel) P w t = Some w1 /\
+   wfind w1 t = Some mt /\ ...` under the hypothesis `cur <> t` only.  That is false of the model when t is an
+   external module (typing, enum, ...): such a module is opaque and never enters sys.modules. *)
+Example C20_star_copies_refuted :
+  let P : program := [] in let w : world := [("c", mkM [] None false)] in
+  exec_stmts 3 P w "c" [SStar "typing"] = Some w /\ (exists m0, wfind w "c" = Some m0) /\ "c" <> "typing" /\
+  forall w1 mt, import_module (pred 3) P w "typing" = Some w1 -> wfind w1 "typing" = Some mt -> False.
+Proof.
+  cbv zeta. split; [vm_compute; reflexivity|]. split; [eexists; vm_compute; reflexivity|]. split; [discriminate|].
+  intros w1 mt H1 H2. vm_compute in H1. inversion H1; subst w1. vm_compute in H2. discriminate.
+Qed.
+
+(* the strongest true variant of that shape: the target is one of the program's modules (then it is in sys.modules
+   after the import); `cur <> t` is not needed *)
+Theorem C20_star_copies_partial : forall fuel P w cur t w',
+  exec_stmts fuel P w cur [SStar t] = Some w' ->
+  (exists m0, wfind w cur = Some m0) -> is_internal P t = true ->
+  exists w1 mt, import_module (pred fuel) P w t = Some w1 /\ wfind w1 t = Some mt /\
+    forall k v, In k (public_names mt) -> ns_lookup (m_ns mt) k = Some v ->
+                exists m, wfind w' cur = Some m /\ ns_lookup (m_ns m) k = Some v.
+Proof.
+  intros fuel P w cur t w' H Hm0 Hint.
+  destruct (C20_star_copies _ _ _ _ _ _ H Hm0) as (w1 & H1 & _ & Hc).
+  destruct (import_registers _ _ _ _ _ H1 Hint) as (mt & Hmt).
+  exists w1, mt. split; [exact H1|]. split; [exact Hmt|].
+  destruct (Hc _ Hmt) as (m1 & m' & _ & Hm' & _ & _ & Hcopy & _).
+  intros k v Hk Hv. exists m'. split; auto.
+Qed.
+
+(* ------------------------------------------------------------------------------------------ *)
+(* 4. a definition is bound to itself                                                            *)
+(* ------------------------------------------------------------------------------------------ *)
+Theorem C20_def_binds : forall fuel P w cur n w',
+  exec_stmts fuel P w cur [SDef n] = Some w' -> (exists m0, wfind w cur = Some m0) ->
+  exists m, wfind w' cur = Some m /\ ns_lookup (m_ns m) n = Some (ODef cur n).
+Proof.
+  intros fuel P w cur n w' H [m0 Hm0].
+  apply exec_stmts_single in H as (f & -> & H). unfold exec_stmt in H. inversion H; subst w'.
+  eexists. split; [apply wfind_bind_same; exact Hm0|]. simpl. apply ns_lookup_snoc_same.
+Qed.
+
+(* ------------------------------------------------------------------------------------------ *)
+(* 5. first-import independence: a dotted module imports its parent package first                *)
+(* ------------------------------------------------------------------------------------------ *)
+Theorem C20_parent_registered : forall fuel P w p w',
+  import_module fuel P w p = Some w' -> wfind w p = None -> is_internal P p = true ->
+  parent_of p <> EmptyString -> is_internal P (parent_of p) = true ->
+  exists m, wfind w' (parent_of p) = Some m.
+Proof.
+  intros fuel P w p w' H Hn Hint Hpar Hpint.
+  destruct fuel as [|f]; [rewrite import_module_0 in H; discriminate|].
+  rewrite import_module_S in H.
+  apply import_step_inv in H as [[-> Hs] | (body & w1 & _ & Hp & Himp & Hrest)].
+  { destruct Hs as [Hs|Hs]; [contradiction|]. unfold is_internal in Hint. rewrite Hs in Hint. discriminate. }
+  destruct (String.eqb (parent_of p) "") eqn:E; [apply String.eqb_eq in E; contradiction|].
+  destruct (import_registers _ _ _ _ _ Himp Hpint) as (m1 & Hm1).
+  destruct Hrest as [[-> _] | (Hn1 & w3 & He & ->)]; [eauto|].
+  assert (L : wle w1 (finish p w3)).
+  { eapply wle_trans; [apply wle_wset_new; exact Hn1|].
+    eapply wle_trans; [eapply exec_wle; exact He | apply wle_finish]. }
+  destruct (L _ _ Hm1) as (m' & Hm' & _). eauto.
+Qed.
+
+(* in a fresh interpreter every module an import leaves in sys.modules is completely initialised *)
+Theorem C20_fresh_import_all_done : forall fuel P p w' q m,
+  import_module fuel P [] p = Some w' -> wfind w' q = Some m -> m_done m = true.
+Proof.
+  intros fuel P p w' q m H Hq.
+  destruct (new_all P (fun _ _ => True)) with (fuel := fuel) as [Hi _]; auto.
+  destruct (Hi _ _ _ H q eq_refl _ Hq) as [Hd _]. exact Hd.
+Qed.
+
+Theorem C20_parent_first : forall fuel P p w',
+  import_module fuel P [] p = Some w' -> is_internal P p = true ->
+  parent_of p <> EmptyString -> is_internal P (parent_of p) = true ->
+  exists m, wfind w' (parent_of p) = Some m /\ m_done m = true.
+Proof.
+  intros fuel P p w' H Hint Hpar Hpint.
+  destruct (C20_parent_registered _ _ _ _ _ H eq_refl Hint Hpar Hpint) as (m & Hm).
+  exists m. split; [exact Hm|]. eapply C20_fresh_import_all_done; eauto.
+Qed.
+
+(* ------------------------------------------------------------------------------------------ *)
+(* 6. the end-to-end statement for the fix in the source: in a fresh interpreter, whatever module  *)
+(*    is imported first, every package whose body ENDS with the re-binding loop has each of the    *)
+(*    listed names bound to its own submodule of that name - and nothing run afterwards           *)
+(*    (other modules' bodies, later imports) can change that.                                      *)
+(* ------------------------------------------------------------------------------------------ *)
+Definition rebind_post (P : program) (q : string) (ns : list (string * obj)) : Prop :=
+  forall pre names, pfind P q = Some (pre ++ [SRebind names]) ->
+  forall n, In n names -> ns_lookup ns n = Some (OMod (q ++ "." ++ n)).
+
+Lemma rebind_post_stable P q ns l :
+  rebind_post P q ns -> Forall (child_binding q) l -> rebind_post P q (ns ++ l).
+Proof. intros H F pre names Hp n Hn. apply lookup_child_ext_stable; eauto. Qed.
+
+Lemma rebind_post_body P fuel w q body w' m :
+  pfind P q = Some body -> wfind w q = Some fresh_mod ->
+  exec_stmts fuel P w q body = Some w' -> wfind w' q = Some m -> rebind_post P q (m_ns m).
+Proof.
+  intros Hp Hw He Hm pre names Hp' n Hn. rewrite Hp in Hp'. inversion Hp'; subst body.
+  destruct (C20_rebind_last_wins _ _ _ _ _ _ _ He (ex_intro _ _ Hw) n Hn) as (m' & Hm' & Hl). congruence.
+Qed.
+
+Theorem C20_fresh_run_all_done : forall fuel P first w q m,
+  fresh_run fuel P first = Some w -> wfind w q = Some m -> m_done m = true.
+Proof.
+  intros fuel P first w q m H Hq.
+  destruct (fresh_run_post P (fun _ _ => True)) with (fuel := fuel) (first := first) (w := w) (q := q) (m := m); auto.
+Qed.
+
+Theorem C20_own_submodules : forall fuel P first w,
+  fresh_run fuel P first = Some w ->
+  forall q pre names m, pfind P q = Some (pre ++ [SRebind names]) -> wfind w q = Some m ->
+  forall n, In n names -> ns_lookup (m_ns m) n = Some (OMod (q ++ "." ++ n)).
+Proof.
+  intros fuel P first w H q pre names m Hp Hq n Hn.
+  destruct (fresh_run_post P (rebind_post P) (rebind_post_stable P) (rebind_post_body P) _ _ _ H _ _ Hq) as [_ HQ].
+  eapply HQ; eauto.
+Qed.
+
+(* the same for any single import into a fresh interpreter *)
+Theorem C20_own_submodules_import : forall fuel P p w,
+  import_module fuel P [] p = Some w ->
+  forall q pre names m, pfind P q = Some (pre ++ [SRebind names]) -> wfind w q = Some m ->
+  forall n, In n names -> ns_lookup (m_ns m) n = Some (OMod (q ++ "." ++ n)).
+Proof.
+  intros fuel P p w H q pre names m Hp Hq n Hn.
+  destruct (new_all P (rebind_post P) (rebind_post_stable P) (rebind_post_body P) fuel) as [Hi _].
+  destruct (Hi _ _ _ H q eq_refl _ Hq) as [_ HQ]. eapply HQ; eauto.
+Qed.
+
+(* attribute access along a dotted path all of whose packages end with the loop *)
+Fixpoint rebind_chain (P : program) (w : world) (q : string) (parts : list string) : Prop :=
+  match parts with
+  | [] => True
+  | n :: t => (exists pre names, pfind P q = Some (pre ++ [SRebind names]) /\ In n names) /\
+              wfind w (q ++ "." ++ n) <> None /\ rebind_chain P w (q ++ "." ++ n) t
+  end.
+Fixpoint path_of (q : string) (parts : list string) : string :=
+  match parts with [] => q | n :: t => path_of (q ++ "." ++ n) t end.
+
+Theorem C20_getattr_chain : forall fuel P first w,
+  fresh_run fuel P first = Some w ->
+  forall parts q, wfind w q <> None -> rebind_chain P w q parts ->
+  resolve_parts w (OMod q) parts = Some (OMod (path_of q parts)).
+Proof.
+  intros fuel P first w H parts. induction parts as [|n t IH]; intros q Hq Hc; simpl.
+  - reflexivity.
+  - destruct Hc as ((pre & names & Hp & Hn) & Hreg & Hc).
+    destruct (wfind w q) as [m|] eqn:E; [|contradiction].
+    rewrite (C20_own_submodules _ _ _ _ H _ _ _ _ Hp E _ Hn). apply IH; auto.
+Qed.
+
+Print Assumptions C20_fuel_monotone.
+Print Assumptions C20_exec_fuel_monotone.
+Print Assumptions C20_fresh_run_fuel_monotone.
+Print Assumptions C20_import_idempotent.
+Print Assumptions C20_import_registers.
+Print Assumptions C20_modules_persist.
+Print Assumptions C20_modules_persist_exec.
+Print Assumptions C20_frame.
+Print Assumptions C20_frame_exec.
+Print Assumptions C20_rebind_binds.
+Print Assumptions C20_rebind_only_appends.
+Print Assumptions C20_rebind_last_wins.
+Print Assumptions C20_star_copies.
+Print Assumptions C20_star_copies_partial.
+Print Assumptions C20_star_copies_refuted.
+Print Assumptions C20_def_binds.
+Print Assumptions C20_parent_registered.
+Print Assumptions C20_fresh_import_all_done.
+Print Assumptions C20_parent_first.
+Print Assumptions C20_fresh_run_all_done.
+Print Assumptions C20_own_submodules.
+Print Assumptions C20_own_submodules_import.
+Print Assumptions C20_getattr_chain.
+
+(* ------------------------------------------------------------------------------------------ *)
+(* 7. a miniature of the eolib package, by computation                                           *)
+(* ------------------------------------------------------------------------------------------ *)
+Definition mini (top_rebind : bool) : program :=
+  [ ("eolib", [SStar "eolib.data"; SStar "eolib.packet"; SStar "eolib.protocol"]
+              ++ (if top_rebind then [SRebind ["data"; "packet"; "protocol"]] else []));
+    ("eolib.data", [SStar "eolib.data.eo_reader"]);
+    ("eolib.data.eo_reader", [SDef "EoReader"]);
+    ("eolib.packet", [SStar "eolib.packet.seq"]);
+    ("eolib.packet.seq", [SDef "Sequencer"]);
+    ("eolib.protocol", [SStar "eolib.protocol.net"; SRebind ["net"]]);
+    ("eolib.protocol.net", [SStar "eolib.protocol.net.packet"; SRebind ["packet"]]);
+    ("eolib.protocol.net.packet", [SFrom "eolib.data.eo_reader" [("EoReader", "EoReader")]; SDef "Packet"]) ].
+
+Definition mini_paths : list string := map fst (mini true).
+Definition mini_fuel : nat := 40.
+
+Definition is_nil {A} (l : list A) : bool := match l with [] => true | _ => false end.
+Definition on_run (top_rebind : bool) (first : string) (chk : world -> bool) : bool :=
+  match fresh_run mini_fuel (mini top_rebind) first with Some w => chk w | None => false end.
+
+(* every run completes and leaves all 8 modules in sys.modules *)
+Example mini_runs_complete :
+  forallb (fun first => on_run true first (fun w => Nat.eqb (List.length w) 8)) mini_paths = true.
+Proof. vm_compute. reflexivity. Qed.
+
+(* with the loops: every module is what its dotted path resolves to, whatever is imported first *)
+Example mini_paths_ok :
+  forallb (fun first => on_run true first (fun w => is_nil (paths_ok w))) mini_paths = true.
+Proof. vm_compute. reflexivity. Qed.
+
+Example mini_resolve_all :
+  forallb (fun first => on_run true first (fun w =>
+    forallb (fun p => match resolve_path w p with Some o => obj_eqb o (OMod p) | None => false end) mini_paths))
+    mini_paths = true.
+Proof. vm_compute. reflexivity. Qed.
+
+(* every public name is the very object its home module defines: in the home module, in the home subpackage, in every
+   package above it and in the top-level package *)
+Definition mini_names : list (string * string * string) :=
+  [ ("eolib.data.eo_reader", "eolib.data.eo_reader", "EoReader");
+    ("eolib.data", "eolib.data.eo_reader", "EoReader");
+    ("eolib", "eolib.data.eo_reader", "EoReader");
+    ("eolib.packet.seq", "eolib.packet.seq", "Sequencer");
+    ("eolib.packet", "eolib.packet.seq", "Sequencer");
+    ("eolib", "eolib.packet.seq", "Sequencer");
+    ("eolib.protocol.net.packet", "eolib.protocol.net.packet", "Packet");
+    ("eolib.protocol.net", "eolib.protocol.net.packet", "Packet");
+    ("eolib.protocol", "eolib.protocol.net.packet", "Packet");
+    ("eolib", "eolib.protocol.net.packet", "Packet");
+    (* the re-exported import of EoReader in eolib.protocol.net.packet is the same object too *)
+    ("eolib.protocol.net.packet", "eolib.data.eo_reader", "EoReader");
+    ("eolib.protocol.net", "eolib.data.eo_reader", "EoReader");
+    ("eolib.protocol", "eolib.data.eo_reader", "EoReader") ].
+
+Example mini_names_ok :
+  forallb (fun first => on_run true first (fun w =>
+    forallb (fun t => let '(pkg, home, name) := t in name_ok w pkg home name) mini_names)) mini_paths = true.
+Proof. vm_compute. reflexivity. Qed.
+
+(* the result does not depend on which module is imported first *)
+Example mini_first_import_independent :
+  forallb (fun first => match fresh_run mini_fuel (mini true) first, fresh_run mini_fuel (mini true) "eolib" with
+                        | Some w, Some w0 =>
+                          forallb (fun p => match wfind w p, wfind w0 p with
+                                            | Some m, Some m0 =>
+                                              forallb (fun k => match ns_lookup (m_ns m) k, ns_lookup (m_ns m0) k with
+                                                                | Some a, Some b => obj_eqb a b | None, None => true | _, _ => false end)
+                                                      (map fst (m_ns m) ++ map fst (m_ns m0))
+                                            | _, _ => false end) mini_paths
+                        | _, _ => false end) mini_paths = true.
+Proof. vm_compute. reflexivity. Qed.
+
+(* WITHOUT the loop in the top-level package (the defect): eolib.packet is the module eolib.protocol.net.packet,
+   for every first import; eolib.packet and eolib.packet.seq are the paths that do not resolve to their module;
+   the names themselves are still fine *)
+Example mini_defect_packet_shadowed :
+  forallb (fun first => on_run false first (fun w =>
+    match resolve_path w "eolib.packet" with
+    | Some o => obj_eqb o (OMod "eolib.protocol.net.packet") | None => false end)) mini_paths = true.
+Proof. vm_compute. reflexivity. Qed.
+
+Example mini_defect_paths :
+  forallb (fun first => on_run false first (fun w =>
+    match paths_ok w with
+    | [a; b] => String.eqb a "eolib.packet" && String.eqb b "eolib.packet.seq"
+    | _ => false end)) mini_paths = true.
+Proof. vm_compute. reflexivity. Qed.
+
+Example mini_defect_names_still_ok :
+  forallb (fun first => on_run false first (fun w =>
+    forallb (fun t => let '(pkg, home, name) := t in name_ok w pkg home name) mini_names)) mini_paths = true.
+Proof. vm_compute. reflexivity. Qed.
+
+(* the general theorem instantiated: eolib's three subpackages, without computing the run *)
+Example mini_own_submodules_by_theorem : forall fuel first w m,
+  fresh_run fuel (mini true) first = Some w -> wfind w "eolib" = Some m ->
+  ns_lookup (m_ns m) "data" = Some (OMod "eolib.data") /\
+  ns_lookup (m_ns m) "packet" = Some (OMod "eolib.packet") /\
+  ns_lookup (m_ns m) "protocol" = Some (OMod "eolib.protocol").
+Proof.
+  intros fuel first w m H Hm.
+  pose proof (C20_own_submodules _ _ _ _ H "eolib"
+                [SStar "eolib.data"; SStar "eolib.packet"; SStar "eolib.protocol"]
+                ["data"; "packet"; "protocol"] m eq_refl Hm) as Hall.
+  repeat split; apply Hall; simpl; auto.
+Qed.
